@@ -48,6 +48,10 @@ use tokio::sync::mpsc;
 use walkdir::{DirEntry, WalkDir};
 use xor_name::XorName;
 
+#[cfg(feature = "verif-hooks")]
+#[path = "verif_hooks/store.rs"]
+mod verif_hooks;
+
 // A transaction record is at the size of 4KB roughly.
 // Given chunk record is maxed at size of 4MB.
 // During Beta phase, it's almost one transaction per chunk,
